@@ -8,7 +8,7 @@ import coqemit as E
 ID = "C19"
 PROPS = "Props/C19.v"
 IMPORTS = "From PV Require Import Lib.Common Model.C19_Pareto Gen.C19_Kernel Proofs.C19_Kernel."
-SHARD = 40
+SHARD = 80
 LEVEL_TEXT = ("Coq theorems over an exact-rational executable model: the pivot filter of is_pareto_efficient (with its index "
               "bookkeeping; termination within npt iterations) marks only non-dominated points and every unmarked point is equalled or "
               "dominated by a marked one, for every finite rectangular point set and every weight vector; the index form is flatnonzero "
@@ -21,21 +21,42 @@ LEVEL_TEXT = ("Coq theorems over an exact-rational executable model: the pivot f
               "to be the core function with the documented roles of their two vector arguments (objectives signed by obj_wt, distance "
               "to the line spanned by vec_wt) for every sign vector and every non-negative non-zero preference vector (after commit "
               "9b993ed9, which repaired finding C19-trans-roles-swapped; the former code is kept as old_trans_sel and refuted as a "
-              "regression witness). The model is tied to the code by evaluating it inside Coq against the implementation's outputs "
-              "on generated inputs")
+              "regression witness); the distances are invariant under a change of unit of any objective (column times c > 0). The "
+              "kernel expressions of the source (48: weighting, strict pivot comparison, loop guard, pivot recount of the filter; the "
+              "body of dominates; per copy of the transformation the signing, shift, range, EXACT zero-range guard, fills, reciprocal, "
+              "scaling, projection coefficient, projection and residual; the three assertions of the core copy) are regenerated "
+              "from the source on every run (Gen/C19_Kernel.v), the filter loop, dominates and the three transformation bodies "
+              "assembled from them are proved equal to the model for all inputs, and the guard/scale/dominance/filter laws are "
+              "stated about the generated definitions, so a changed expression breaks the proof build whatever the sampled cases "
+              "are. The model is tied to the code by evaluating it (and the bodies assembled from the generated kernels) inside "
+              "Coq against the implementation's outputs on generated inputs")
 LEVEL_NOTE = ("trusted: Coq kernel + vm_compute; numpy float comparisons/products/differences are exact on the dyadic input grid; the "
               "1/range scaling, the dot products and numpy.linalg.norm are compared in regime T (squared distance within 2^-30(1+|y|) of "
               "the exact rational); float overflow, NaN inputs, ragged/mis-shaped inputs are outside the model; the theorems are about "
-              "the Gallina model, the tie to the code is differential on generated inputs")
+              "the Gallina model, the tie to the code is differential on generated inputs plus the regenerated kernel expressions "
+              "(harness/translate/c19_kernel.py + pyexpr.py are trusted to translate the located expressions faithfully; statement "
+              "order, array plumbing such as fmat[ndpt_mask], numpy.linalg.norm(.., axis=1) and the reductions are matched "
+              "verbatim, fail closed)")
 TECHNIQUE = "Coq proof over an exact-rational executable model; in-Coq vm_compute correspondence with the implementation"
 RULE = ("case = (function, arguments): pareto (fmat, wt, a permutation, a positive column rescale), dom (three (obj, cv) solutions: all 9 "
         "ordered pairs), dist (one of the three transformation functions, mat, sign vector, preference vector, a translation); generated "
         "from one PRNG over styles small-integer grid (ties/duplicates), k/64 grid, collinear front, chain, duplicated points, single "
         "point, constant objective; npt 0..14 (thorough ..40), nobj 1..4; weights of both signs and zero; preference vectors on the grid "
         "{0,1/4,..,3}^nobj (all of {0,1/2,1,2}^2 on a fixed front), plus inputs outside the quantified domain (zero/negative "
-        "preference, zero sign vector: AssertionError / NaN compared coarsely). non-trivial = at least two points that are not all "
+        "preference, zero sign vector: AssertionError / NaN compared coarsely). Phase 2: every objective in its own unit 2^e, "
+        "e in -40..20 (fronts, point sets, objectives of dominates; weights and rescales 2^-40 / 2^20); style tiny = exact ties "
+        "next to differences of 2^-27..2^-45 and constant columns; constraint scores +-2^-40, +-2^-60; memory layouts C / Fortran / "
+        "strided view / read-only / integer dtype; scores as float, numpy.float64, 0-d array; extra keyword arguments; the default "
+        "ndset_trans and default keyword arguments installed by SelectionProtocol's setters; positional and keyword calls; a "
+        "second call on the same array object after an in-place update (translated, points reversed); the front re-expressed in "
+        "units 2^-40..2^20 must give the same distances; results must not share memory with inputs and a repeated call must not "
+        "depend on the overwritten first result; point sets of 141 and 271 points (indices beyond int8/uint8); every public "
+        "definition of the five anchored modules is classified COVERED (with its parameter list) or SKIPPED (reason), fail closed. "
+        "non-trivial = at least two points that are not all "
         "equal (dom: the three solutions are not all identical); distinct by SHA-256 of the case")
-TRUSTED = ["float products/differences/comparisons of dyadic inputs (k/64, |x| <= 8, weights m/4) are exact",
+TRUSTED = ["float products/differences/comparisons of dyadic inputs (k/64, |x| <= 8, weights m/4, units 2^-40..2^20; the generator verifies "
+           "with exact rationals that every product, translation and in-column difference is an exact float) are exact",
+           "harness/translate/c19_kernel.py + pyexpr.py translate the located source expressions faithfully (fail closed otherwise)",
            "numpy.linalg.norm, 1.0/range and the dot products are compared in tolerance regime T on the squared distance"]
 ASSUMPTIONS = ["rectangular fmat/mat with len(wt) = nobj >= 1, finite non-NaN entries, no float overflow",
                "distance transforms: sign entries non-zero and preference vector non-negative non-zero for the predicate "
@@ -174,10 +195,14 @@ def _case_dist(rng, fn, npt, nobj, style, domain=True):
         shift = [t * 2.0 ** e for t, e in zip(shift, ex)]                          # a translation in the objective's own unit
     if not _exact_rows(mat, sign, shift): shift = [0.0] * nobj
     if not _exact_rows(mat, sign): sign = [1.0 if x > 0 else -1.0 for x in sign] if any(sign) else sign
+    # the same front with every objective expressed in yet another unit 2^e (checked only when all float operations stay exact)
+    reunit = [rng.choice([-40, -40, -30, -27, -13, 5, 20]) for _ in range(nobj)]
+    if not mat or rng.random() < 0.5 or not _exact_rows([[x * 2.0 ** e for x, e in zip(r, reunit)] for r in mat], sign): reunit = None
     route = "protocol" if fn == "prob" and rng.random() < 0.3 else "direct"
     if route == "protocol" and domain and rng.random() < 0.5: sign, pref = [1.0] * nobj, [1.0] * nobj
     return {"kind": "dist", "fn": fn, "style": style, "nobj": nobj, "mat": mat, "sign": sign, "pref": pref, "shift": shift,
-            "units": ex, "layout": rng.choice(LAYOUTS), "extra_kw": rng.random() < 0.1, "route": route, "session": rng.random() < 0.5}
+            "units": ex, "layout": rng.choice(LAYOUTS), "extra_kw": rng.random() < 0.1, "route": route, "session": rng.random() < 0.5,
+            "reunit": reunit}
 
 FNS = ["core", "prob", "transfn"]
 
@@ -339,13 +364,16 @@ def run_impl(case):
             if numpy.asarray(d).size and numpy.asarray(d).flags.writeable: d[...] = -1.0      # scribble over the result ...
             again = bool(numpy.array_equal(numpy.asarray(call(mat), dtype=float), keep, equal_nan=True))   # ... a later call is unaffected
             d = keep
+            du = None
+            if case.get("reunit"):
+                du = call(numpy.array(case["mat"], dtype=float).reshape(len(case["mat"]), nobj) * numpy.array([2.0 ** e for e in case["reunit"]])[None, :])
             sh = numpy.array(case["shift"], dtype=float)[None, :]
             if _session(case):
                 mat[...] = (mat + sh)[::-1]; ds = call(mat)     # the SAME array object, updated in place between the two calls
             else:
                 ds = call(mat + sh)
         return {"d": _hx(d), "d_shape": list(numpy.asarray(d).shape), "d_shift": _hx(ds), "unchanged": unchanged,
-                "alias": alias, "again": again}
+                "alias": alias, "again": again, "d_unit": None if du is None else _hx(du)}
     raise ValueError(k)
 
 # ------------------------------------------------------------------ Coq emission
@@ -389,8 +417,11 @@ def emit_case(case, out):
         Ms = E.lst2(Ms[::-1] if _session(case) else Ms, _q)
         # the translated front through the body ASSEMBLED FROM THE GENERATED KERNELS of that copy (Gen/C19_Kernel.v)
         knm = {"core": "kern_core", "prob": "kern_body K_prob", "transfn": "kern_body K_fn"}[case["fn"]]
-        return "(tres_agree (%s %s %s %s) %s\n   && tres_agree (%s %s %s %s) %s)" % (
-            fnm, M, sign, pref, _obs(out["d"]), knm, Ms, sign, pref, _obs(out["d_shift"]))
+        extra = ""
+        if out.get("d_unit") is not None:       # the front in other units, against the MODEL's result for the original front (C19_unit_invariant)
+            extra = "\n   && tres_agree (%s %s %s %s) %s" % (fnm, M, sign, pref, _obs(out["d_unit"]))
+        return "(tres_agree (%s %s %s %s) %s\n   && tres_agree (%s %s %s %s) %s%s)" % (
+            fnm, M, sign, pref, _obs(out["d"]), knm, Ms, sign, pref, _obs(out["d_shift"]), extra)
     return "false"
 
 # ------------------------------------------------------------------ independent predicate
@@ -499,6 +530,10 @@ def _pred_dist(case, out):
         if not _close2(ds[i], want[i]):
             bad.append("distance of point %d changes under translation by %s%s: %r vs %r" % (
                 i, case["shift"], " (same array updated in place, points reversed)" if _session(case) else "", ds[i], d[i])); break
+    if out.get("d_unit") is not None:
+        du = [_fh(h) for h in out["d_unit"]]
+        if len(du) != n or any(not math.isfinite(x) for x in du) or any(not _close2(du[i], want[i]) for i in range(n)):
+            bad.append("distances change when the objectives are expressed in units 2^%s: %r vs %r" % (case["reunit"], du[:4], d[:4]))
     if not out["unchanged"]: bad.append("input arrays were modified")
     if out.get("alias"): bad.append("the result shares memory with an input")
     if not out.get("again", True): bad.append("a repeated call on the same inputs gives a different result after the first result was overwritten")
